@@ -2143,6 +2143,9 @@ class GtkDocCommentBlockParser(object):
                 parsed_annotations = GtkDocAnnotations(position=position)
             else:
                 parsed_annotations = annotations.copy()
+                if parsed_annotations.position is None:
+                    # The part had no annotations so far: these are its first
+                    parsed_annotations.position = position
         else:
             parsed_annotations = []
 
